@@ -12,10 +12,13 @@
    [sampler_p b n l U hin i k] is Sampler(circuit, i).probability_distribution[k]
    (0 for an absent key).
 
-   State of the current tree: the Analyzer does NOT work on heralds that carry
-   photons, nor on heralds whose input mode differs from the output mode
-   (C05_analyzer_total_refuted_photons, C05_analyzer_total_refuted_modes); everything else is proved without
-   restriction on the heralds. *)
+   [analyze] = the guard `len(heralds["input"]) != len(heralds["output"]) ->
+   RuntimeError` followed by [analyze_body] (C05_analyze_is_guard_then_body).
+
+   State of the current tree (e8102ee): heralds may carry photons and may sit
+   on different input and output modes; the two defects repaired by 35b3f09 (F6)
+   and e8102ee (N14) are kept as regression witnesses in
+   C05_analyzer_total_pinned_refuted. *)
 From Coq Require Import ZArith List Bool Arith Lia Reals.
 From LW Require Import Base.Sx Base.Num Base.Sums Base.Mat Base.RInst Model.State Model.Fock Model.Analyzer
      Proofs.StateP Proofs.PermP Proofs.SimP Proofs.FockUnitP Proofs.AnalyzerP.
@@ -41,21 +44,31 @@ Proof. exact sampler_marginal. Qed.
 Print Assumptions C05_sampler_is_marginal_over_loss_modes.
 
 (* ---- Analyzer: which outputs are listed ---- *)
-(* an output is listed iff it is a candidate (m modes; the photon number handed
-   to _generate_outputs, or at most that many for a lossy circuit) and passes the
-   post-selection.  NB the photon number is that of the first input INCLUDING
-   the photons of the input heralds: this is the defect behind
-   C05_analyzer_total_refuted_photons. *)
+(* an output is listed iff it is a candidate (m modes; the photon number of the
+   first input, heralds excluded, or at most that many for a lossy circuit) and
+   passes the post-selection *)
 Theorem C05_analyzer_lists_exactly_the_postselected_outputs :
   forall (K : Type) (o : ops K), StarRing o ->
   forall n l (U : @mat (K * K)) hin hout ps inputs expected r,
     analyze o n l U hin hout ps inputs expected = Ok r ->
-    exists i0 fi0, hd_error inputs = Some i0 /\ add_heralds_to_state i0 hin = Ok fi0 /\
+    exists i0, hd_error inputs = Some i0 /\
       forall x, In x (ar_outputs r) <->
-                exists c, x = zs c /\ length c = n - length hin /\ osum c <= osum (znat fi0) /\
-                          (l = 0 -> osum c = osum (znat fi0)) /\ ps x = Ok true.
-Proof. exact (fun K o SR => @analyzer_outputs_iff K o SR). Qed.
+                exists c, x = zs c /\ length c = n - length hin /\ osum c <= Z.to_nat (zsum i0) /\
+                          (l = 0 -> osum c = Z.to_nat (zsum i0)) /\ ps x = Ok true.
+Proof. exact (fun K o SR => @analyze_outputs_iff K o SR). Qed.
 Print Assumptions C05_analyzer_lists_exactly_the_postselected_outputs.
+
+(* analyze = guard on the number of heralds, then the body *)
+Theorem C05_analyze_is_guard_then_body :
+  forall (K : Type) (o : ops K) n l (U : @mat (K * K)) hin hout ps inputs expected,
+    analyze o n l U hin hout ps inputs expected =
+    if Nat.eqb (length hin) (length hout) then analyze_body o n l U hin hout ps inputs expected else Err OtherError.
+Proof. exact (fun K o n l U hin hout ps inputs expected =>
+                match Nat.eqb (length hin) (length hout) as b
+                      return ((if negb b then Err OtherError else analyze_body o n l U hin hout ps inputs expected) =
+                              (if b then analyze_body o n l U hin hout ps inputs expected else Err OtherError))
+                with true => eq_refl | false => eq_refl end). Qed.
+Print Assumptions C05_analyze_is_guard_then_body.
 
 (* ---- Analyzer: every entry, performance, error rate (any scalar ring) ---- *)
 (* entry (input, output) = sum over the loss-mode occupations holding the lost
@@ -65,12 +78,12 @@ Theorem C05_analyzer_result :
   forall (K : Type) (o : ops K), StarRing o ->
   forall n l (U : @mat (K * K)) hin hout ps inputs expected r,
     analyze o n l U hin hout ps inputs expected = Ok r ->
-    hd_eqb hin hout = true /\
+    length hout = length hin /\
     exists fins,
       an_process_inputs (n - length hin) l hin inputs = Ok fins /\
       n - length hin <> 0 /\
       ar_outputs r = map zs (filter (fun c => ps_acc ps (zs c))
-                                    (an_candidates (n - length hin) l (an_nphotons fins))) /\
+                                    (an_candidates (n - length hin) l (an_nphotons inputs))) /\
       ar_outputs r <> [] /\
       Forall2 (fun x fo => add_heralds_to_state x hout = Ok fo) (ar_outputs r) (ar_full r) /\
       Forall2 (fun fin row =>
@@ -99,7 +112,7 @@ Theorem C05_analyzer_eq_sampler :
     Forall2 (fun i row => sampler_accepts b n l U hin i /\
                           row = map (fun fo => sampler_p b n l U hin i (znat fo)) (ar_full r))
             inputs (ar_probs r).
-Proof. exact analyzer_eq_sampler. Qed.
+Proof. exact analyze_eq_sampler. Qed.
 Print Assumptions C05_analyzer_eq_sampler.
 
 (* performance = mean over the inputs of the accepted total (of the Sampler's probabilities) *)
@@ -112,7 +125,7 @@ Theorem C05_performance_is_mean_accepted_total :
     ar_perf r = (suml rops (ar_probs r) (fun row => ksum rops row) / IZR (Z.of_nat (length inputs)))%R /\
     ar_perf r = (suml rops inputs (fun i => suml rops (ar_full r) (fun fo => sampler_p b n l U hin i (znat fo)))
                  / IZR (Z.of_nat (length inputs)))%R.
-Proof. exact performance_spec. Qed.
+Proof. exact analyze_performance. Qed.
 Print Assumptions C05_performance_is_mean_accepted_total.
 
 (* error_rate = 1 - mean_i ( sum_{o in expected(i), o listed} p_io / sum_o p_io ).
@@ -128,7 +141,7 @@ Theorem C05_error_rate_is_one_minus_expected_fraction :
                            / IZR (Z.of_nat (length inputs)))%R
       | None => exists row, In row (ar_probs r) /\ ksum rops row = 0%R
       end.
-Proof. exact error_rate_spec. Qed.
+Proof. exact analyze_error_rate. Qed.
 Print Assumptions C05_error_rate_is_one_minus_expected_fraction.
 
 (* ---- quick sampler = sampler conditioned and renormalised ---- *)
@@ -184,41 +197,46 @@ Proof. exact sim_sq_eq_sampler. Qed.
 Print Assumptions C05_sim_sq_eq_sampler.
 
 (* ---- totality ---- *)
-(* REFUTED on the current tree: "each object works on every circuit the others
-   accept, including circuits whose heralds carry photons". *)
-Theorem C05_analyzer_total_refuted_photons :
-  forall (K : Type) (o : ops K) (U : @mat (K * K)),
-    (exists r, simulate o 2 0 U [(1, 1%Z)] [(1, 1%Z)] 1 [[1%Z]] None = Ok r) /\
-    (exists d, sampler_dist o Permanent (k0 o) 2 0 U [(1, 1%Z)] [1%Z] = Ok d) /\
-    analyze o 2 0 U [(1, 1%Z)] [(1, 1%Z)] (fun _ => Ok true) [[1%Z]] None = Err ValueError /\
-    analyze o 2 1 U [(1, 1%Z)] [(1, 1%Z)] (fun _ => Ok true) [[1%Z]] None = Err PhotonNumberError.
-Proof. exact (fun K o => @analyzer_total_refuted_photons K o). Qed.
-Print Assumptions C05_analyzer_total_refuted_photons.
-
-Theorem C05_analyzer_total_refuted_modes :
-  forall (K : Type) (o : ops K) (U : @mat (K * K)),
-    (exists r, simulate o 2 0 U [(1, 0%Z)] [(0, 0%Z)] 1 [[1%Z]] None = Ok r) /\
-    (exists d, sampler_dist o Permanent (k0 o) 2 0 U [(1, 0%Z)] [1%Z] = Ok d) /\
-    analyze o 2 0 U [(1, 0%Z)] [(0, 0%Z)] (fun _ => Ok true) [[1%Z]] None = Err OtherError.
-Proof. exact (fun K o => @analyzer_total_refuted_modes K o). Qed.
-Print Assumptions C05_analyzer_total_refuted_modes.
-
-(* what does hold: zero-photon heralds on equal modes *)
-Theorem C05_analyzer_total_partial :
+(* analyze() works for ANY well-formed heralds (photons or not, input mode = or
+   <> output mode; a circuit's two dictionaries always have the same size and
+   hold the same photons) on every input list the Simulator accepts; documented
+   refusals: a post-selection that keeps no candidate (ValueError), an
+   `expected` that misses an input (KeyError) *)
+Theorem C05_analyzer_total :
   forall (K : Type) (o : ops K) n l (U : @mat (K * K)) hin hout ps inputs expected,
     0 < n - length hin -> herald_ok n hin -> herald_ok n hout ->
-    hd_eqb hin hout = true ->
-    Forall (fun kv => snd kv = 0%Z) hin -> Forall (fun kv => snd kv = 0%Z) hout ->
+    length hout = length hin -> hd_photons hin = hd_photons hout ->
     inputs <> [] -> Forall (valid_state (n - length hin)) inputs -> all_equal (map zsum inputs) = true ->
     (forall s, exists b, ps s = Ok b) ->
-    (exists c, In c (an_candidates (n - length hin) l (Z.to_nat (zsum (hd [] inputs)))) /\ ps (zs c) = Ok true) ->
+    (exists c, In c (an_candidates (n - length hin) l (an_nphotons inputs)) /\ ps (zs c) = Ok true) ->
     match expected with
     | Some e => forall s, In s inputs -> exp_lookup e s <> None
     | None => True
     end ->
     exists r, analyze o n l U hin hout ps inputs expected = Ok r.
-Proof. exact (fun K o => @analyzer_total_partial K o). Qed.
-Print Assumptions C05_analyzer_total_partial.
+Proof. exact (fun K o => @analyzer_total K o). Qed.
+Print Assumptions C05_analyzer_total.
+
+(* regression witnesses for the two repaired defects ([analyze_pinned] = the old
+   code): F6, herald photons counted in the photon number of the output
+   enumeration: a herald carrying a photon made the Analyzer raise ValueError
+   (PhotonNumberError with a loss mode); N14, the guard compared the herald
+   dictionaries: a herald with input mode <> output mode was refused.  In both
+   cases the Simulator and the Sampler accept, and the repaired Analyzer too. *)
+Theorem C05_analyzer_total_pinned_refuted :
+  forall (K : Type) (o : ops K) (U : @mat (K * K)),
+    (exists r, simulate o 2 0 U [(1, 1%Z)] [(1, 1%Z)] 1 [[1%Z]] None = Ok r) /\
+    (exists d, sampler_dist o Permanent (k0 o) 2 0 U [(1, 1%Z)] [1%Z] = Ok d) /\
+    analyze_pinned o 2 0 U [(1, 1%Z)] [(1, 1%Z)] (fun _ => Ok true) [[1%Z]] = Err ValueError /\
+    analyze_pinned o 2 1 U [(1, 1%Z)] [(1, 1%Z)] (fun _ => Ok true) [[1%Z]] = Err PhotonNumberError /\
+    (exists r, analyze o 2 0 U [(1, 1%Z)] [(1, 1%Z)] (fun _ => Ok true) [[1%Z]] None = Ok r) /\
+    (exists r, analyze o 2 1 U [(1, 1%Z)] [(1, 1%Z)] (fun _ => Ok true) [[1%Z]] None = Ok r) /\
+    (exists r, simulate o 2 0 U [(1, 0%Z)] [(0, 0%Z)] 1 [[1%Z]] None = Ok r) /\
+    (exists d, sampler_dist o Permanent (k0 o) 2 0 U [(1, 0%Z)] [1%Z] = Ok d) /\
+    analyze_pinned o 2 0 U [(1, 0%Z)] [(0, 0%Z)] (fun _ => Ok true) [[1%Z]] = Err OtherError /\
+    (exists r, analyze o 2 0 U [(1, 0%Z)] [(0, 0%Z)] (fun _ => Ok true) [[1%Z]] None = Ok r).
+Proof. exact (fun K o => @analyzer_total_pinned_refuted K o). Qed.
+Print Assumptions C05_analyzer_total_pinned_refuted.
 
 (* the QuickSampler works on every circuit/input the Simulator accepts (any
    heralds, lossy circuits included) up to its two documented refusals *)
@@ -233,6 +251,18 @@ Theorem C05_quick_sampler_total :
     exists pd, quick_sampler o eps n l U hin hout ps pc input = Ok pd.
 Proof. exact (fun K o => @quick_sampler_total K o). Qed.
 Print Assumptions C05_quick_sampler_total.
+
+(* zero total: every candidate at or below the threshold -> EmulatorError, no division *)
+Theorem C05_quick_sampler_zero_total_is_an_error :
+  forall (K : Type) (o : ops K) eps n l (U : @mat (K * K)) hin hout ps pc input outs fi raw,
+    qs_new (n - length hin) input = Ok tt ->
+    qs_candidates ps pc input = Ok outs ->
+    add_heralds_to_state input hin = Ok fi ->
+    qs_raw o eps l U hout (znat fi ++ repeat 0 l) outs = Ok raw ->
+    (forall x, In x outs -> klt o eps (qs_w o l U hout (znat fi ++ repeat 0 l) x) = false) ->
+    quick_sampler o eps n l U hin hout ps pc input = Err OtherError.
+Proof. exact (fun K o => @quick_sampler_zero_total K o). Qed.
+Print Assumptions C05_quick_sampler_zero_total_is_an_error.
 
 (* recorded: threshold detection on a vacuum input is refused (max(s) == 1) *)
 Theorem C05_quick_sampler_vacuum_threshold_rejected :
@@ -250,18 +280,18 @@ Proof.
   - repeat constructor; simpl; lia.
 Qed.
 
-(* a lossy 2-mode circuit with one photon: the Analyzer (over the reals) accepts,
-   so C05_analyzer_eq_sampler / C05_performance_... speak about something *)
+(* a lossy 3-mode circuit, a herald carrying a photon with input mode 1 and
+   output mode 2, two one-photon inputs: the Analyzer (over the reals)
+   accepts, so C05_analyzer_eq_sampler / C05_performance_... speak about something *)
 Example C05_analyzer_accepts_nonvacuous :
-  forall U : @mat C, exists r, analyze rops 2 1 U [] [] (fun _ => Ok true) [[1%Z; 0%Z]; [0%Z; 1%Z]] None = Ok r.
+  forall U : @mat C, exists r, analyze rops 3 1 U [(1, 1%Z)] [(2, 1%Z)] (fun _ => Ok true) [[1%Z; 0%Z]; [0%Z; 1%Z]] None = Ok r.
 Proof.
-  intros U. apply (analyzer_total_partial rops 2 1 U [] [] (fun _ => Ok true) [[1%Z; 0%Z]; [0%Z; 1%Z]] None).
+  intros U. apply (analyzer_total rops 3 1 U [(1, 1%Z)] [(2, 1%Z)] (fun _ => Ok true) [[1%Z; 0%Z]; [0%Z; 1%Z]] None).
   - simpl. lia.
-  - split; [constructor|split; [intros k []|constructor]].
-  - split; [constructor|split; [intros k []|constructor]].
+  - split; [constructor; [intros []|constructor]|split; [intros k [<-|[]]; simpl; lia|repeat constructor; simpl; lia]].
+  - split; [constructor; [intros []|constructor]|split; [intros k [<-|[]]; simpl; lia|repeat constructor; simpl; lia]].
   - reflexivity.
-  - constructor.
-  - constructor.
+  - reflexivity.
   - discriminate.
   - repeat constructor; simpl; lia.
   - reflexivity.
